@@ -33,6 +33,9 @@ pub const MODES: &[&[&str]] = &[
     &["--width", "variable", "--file-decoration-style", "box", "--hunk-header-decoration-style", "box ul"],
     &["--width", "variable", "--side-by-side", "--line-numbers-left-format", "{nm}|", "--line-numbers-right-format", "{np}|"],
     &["--line-numbers", "--line-numbers-left-format", "{nm}:", "--line-numbers-right-format", "{np}:", "--tabs", "2"],
+    // links around file names, commit hashes and every line number
+    &["--hyperlinks", "--line-numbers", "--hyperlinks-file-link-format", "file://{path}#L{line}"],
+    &["--hyperlinks", "--side-by-side", "--hyperlinks-commit-link-format", "https://example.org/c/{commit}"],
 ];
 
 /// mode numbers from here on: options drawn from the seeded swarm instead of MODES
